@@ -79,7 +79,7 @@ def build(ck):
         _closure2d(ck, 6, 1)
         _closure3d(ck, 6, 1)
         if thorough:
-            _closure2d(ck, 8, 2)
+            _closure2d(ck, 10, 2)  # N = 10: the 2/3 rule retains |m| <= 2, so the forced mode k = 2 survives the pre-dealiasing (at N = 8 it does not and the obligation would be vacuous)
     if want("step"):
         for order in (1, 2, 3, 4):
             _step_from_forced_subspace(ck, order)
